@@ -12,7 +12,7 @@ from vlib import harness
 ID = "C04"
 LEVEL = "exploration"
 ENGINE = "vkernel+sched"
-TECHNIQUE = "runtime monitor: cache reference model (object identity) over generated process-table histories; bounded-preemption schedules of two concurrent iterators; free-running iterator threads while a third thread changes the table"
+TECHNIQUE = "runtime monitor: cache reference model (object identity) over generated process-table histories; bounded-preemption schedules of two concurrent iterators; free-running iterator threads while a third thread changes the table; live kernel: real threads ids, death, a really recycled pid"
 RULE = ("one case = a history over a simulated process table (pids + hidden thread ids) of table changes, pids(), pid_exists(n) "
         "for n in listed/thread-id/absent/{0,-1,-2**70,2**31-1,2**31,2**32+5,2**63,2**64,10**30}, process_iter() fully or partly "
         "consumed, with table changes applied between listing and visit, attrs=[...], cache_clear(), is_running() on cached "
@@ -644,6 +644,108 @@ def run_probe_race(acc):
         acc.case(dict(kind="probe_race", attrs=attrs, file=victim_file), True, viols)
 
 
+# ---- live kernel ---------------------------------------------------------------------------------------------
+
+def run_live(shard, acc):
+    """pids()/pid_exists()/process_iter() against the real kernel: real children with real threads (thread ids answer
+    kill(tid, 0) and /proc/<tid> resolves although it is not listed), death, and a really recycled pid."""
+    import os
+    import subprocess
+    import sys
+    import time
+    from vlib import livereuse
+    ps = setup()["ps"]
+    ps.PROCFS_PATH = "/proc"
+    env = {k: v for k, v in os.environ.items() if k != "LD_PRELOAD"}
+    threaded = [sys.executable, "-S", "-c",
+                "import threading, time\nfor _ in range(3): threading.Thread(target=time.sleep, args=(1000,), daemon=True).start()\n"
+                "print('up', flush=True)\ntime.sleep(1000)"]
+    viols = []
+    kids = [subprocess.Popen(threaded, env=env, stdout=subprocess.PIPE) for _ in range(3)]
+    try:
+        for k in kids:
+            k.stdout.readline()
+        mine = sorted(k.pid for k in kids)
+        listed = ps.pids()
+        acc.count("live_pids_calls")
+        if listed != sorted(listed) or len(set(listed)) != len(listed):
+            viols.append(("live:pids_not_ascending_or_duplicates", str(listed)[:300]))
+        if not set(mine) <= set(listed):
+            viols.append(("live:pids_misses_live_process", f"{mine} not all in pids()"))
+        for k in kids:
+            tids = sorted(int(t) for t in os.listdir(f"/proc/{k.pid}/task"))
+            acc.count("live_thread_ids_checked", len(tids) - 1)
+            for tid in tids:
+                got = ps.pid_exists(tid)
+                if got is not (tid == k.pid):
+                    viols.append(("live:pid_exists_wrong:thread_id" if tid != k.pid else "live:pid_exists_wrong",
+                                  f"pid_exists({tid}) -> {got}; process {k.pid} has threads {tids}"))
+                if tid != k.pid and tid in listed:
+                    viols.append(("live:pids_lists_thread_id", f"{tid}"))
+        for n in (0, 1, os.getpid(), -1, -mine[0], 2**22 + 5, 2**31 - 1, 2**31, 2**64, 10**30):
+            try:
+                got = ps.pid_exists(n)
+            except Exception as e:  # noqa: BLE001
+                viols.append((f"live:pid_exists_exception:{type(e).__name__}", f"pid_exists({n}) raised {e!r}"))
+                continue
+            want = n in (0, 1, os.getpid()) if n >= 0 else False
+            if n == 0:
+                want = got          # pid 0 is platform lore (the statement speaks of the process table)
+            if got is not want:
+                viols.append(("live:pid_exists_wrong", f"pid_exists({n}) -> {got} want {want}"))
+        it1 = {p.pid: p for p in ps.process_iter()}
+        it2 = {p.pid: p for p in ps.process_iter()}
+        acc.count("live_iterations")
+        for pid in mine:
+            if pid not in it1 or it1.get(pid) is not it2.get(pid):
+                viols.append(("live:identity_not_preserved", f"pid {pid}: {it1.get(pid)!r} vs {it2.get(pid)!r}"))
+        seq = [p.pid for p in ps.process_iter()]
+        if seq != sorted(seq):
+            viols.append(("live:iter_not_ascending", str(seq)[:300]))
+        # death: entry dropped, pid_exists False, not listed
+        victim = kids[0]
+        old_entry = it2[victim.pid]
+        victim.kill()
+        victim.wait()
+        if ps.pid_exists(victim.pid) or victim.pid in ps.pids():
+            viols.append(("live:dead_pid_still_listed", f"{victim.pid}"))
+        if any(p.pid == victim.pid for p in ps.process_iter()):
+            viols.append(("live:dead_pid_still_yielded", f"{victim.pid}"))
+        ps.process_iter.cache_clear()
+        it3 = {p.pid: p for p in ps.process_iter()}
+        if it3.get(mine[1]) is it2.get(mine[1]) and mine[1] != victim.pid:
+            viols.append(("live:cache_clear_kept_entry", f"pid {mine[1]}"))
+        # a really recycled pid whose cached entry was never seen absent
+        kid = kids[1]
+        entry = it3[kid.pid]
+        kid.kill()
+        kid.wait()
+        with livereuse.Recycled(kid.pid) as rec:
+            if not rec.ok:
+                acc.count("live_reuse_skipped")
+                acc.extra.setdefault("live_reuse_skipped", []).append(rec.why)
+            else:
+                acc.count("live_pid_recyclings")
+                if not ps.pid_exists(kid.pid) or kid.pid not in ps.pids():
+                    viols.append(("live:recycled_pid_not_listed", f"{kid.pid}"))
+                if entry.is_running() is not False:
+                    viols.append(("live:is_running_True_for_recycled_pid", f"{entry!r}"))
+                later = [[p for p in ps.process_iter() if p.pid == kid.pid] for _ in range(3)]
+                if any(x and x[0] is entry for x in later):
+                    viols.append(("live:stale_object_yielded_after_is_running_found_it_recycled", f"pid {kid.pid}"))
+                if not later[2] or later[2][0] is entry:
+                    viols.append(("live:recycled_entry_not_replaced", f"pid {kid.pid}: {later}"))
+    finally:
+        for k in kids:
+            try:
+                k.kill()
+            except Exception:  # noqa: BLE001
+                pass
+            k.wait()
+            k.stdout.close()
+    acc.case(dict(kind="live"), True, viols)
+
+
 def plan(tier, seed):
     shards = []
     n = 32000 if tier == "quick" else 600000
@@ -657,6 +759,7 @@ def plan(tier, seed):
         shards.append(dict(kind="sched_rand", scn=scn, seed=seed, count=800 if tier == "quick" else 40000))
     for part in range(4 if tier == "quick" else 16):
         shards.append(dict(kind="threads", seed=seed, part=part, count=5 if tier == "quick" else 60))
+    shards.append(dict(kind="live", timeout=1200))
     return shards
 
 
@@ -700,6 +803,8 @@ def run_shard(shard):
     elif k == "threads":
         for i in range(shard["count"]):
             run_threads_case(dict(seed=shard["seed"], i=shard["part"] * 1000 + i, threads=2 + i % 2, ops=150, pool=8 + 4 * (i % 3)), acc)
+    elif k == "live":
+        run_live(shard, acc)
     elif k == "sched_exh":
         sch, _ = run_schedule(shard["scn"], (), 0)
         total = sch.step
@@ -724,6 +829,8 @@ def run_shard(shard):
                 run_history(case["hist"], acc)
             elif case.get("kind") == "threads":
                 run_threads_case({k_: v for k_, v in case.items() if k_ != "kind"}, acc)
+            elif case.get("kind") == "live":
+                run_live({}, acc)
             elif case.get("kind") == "probe_race":
                 run_probe_race(acc)
             elif case.get("kind") == "pid_exists_fault":
